@@ -313,7 +313,15 @@ func ruleA4(p *Prog) *RuleResult {
 			}
 		}
 		if len(payload) == 0 {
-			res.undecided(s.fn+"|payload", p.pos(f.Pos()), "no payload store of caller-owned memory found (zero-copy path removed or not recognised)")
+			// the zero-copy branch may live in a helper that hands back the container together with its flag:
+			//   c, cow := wrapWords(words, ...) ; table.appendContainer(k, c, cow)
+			if ok, why, pos := a4PairHelper(p, e, f, ti); ok {
+				res.ok(s.fn+"|payload via helper", pos, why)
+			} else if why != "" {
+				res.bad(s.fn+"|payload via helper", pos, why)
+			} else {
+				res.undecided(s.fn+"|payload", p.pos(f.Pos()), "no payload store of caller-owned memory found (zero-copy path removed or not recognised)")
+			}
 		}
 	}
 	return res
@@ -710,4 +718,132 @@ func flagStoreCovers(flag, slot *ssa.BasicBlock) bool {
 		}
 	}
 	return false
+}
+
+// a4PairHelper: f passes caller-owned memory to a helper g that installs it as a container's payload and
+// returns (container, flag); inside g the flag is true on every return on which the payload is still the
+// caller's memory, and f stores exactly that pair into a slot.
+// Returns (true, reason, pos) when decided positively, (false, reason, pos) for a violation, (false, "", "") when no such helper exists.
+func a4PairHelper(p *Prog, e *tlEngine, f *ssa.Function, ti *taintInfo) (bool, string, string) {
+	lv := e.lv
+	for _, b := range f.Blocks {
+		for _, ins := range b.Instrs {
+			call, ok := ins.(*ssa.Call)
+			if !ok {
+				continue
+			}
+			g := call.Call.StaticCallee()
+			if g == nil || g.Blocks == nil || g.Signature.Results().Len() != 2 {
+				continue
+			}
+			if bt, ok := g.Signature.Results().At(1).Type().Underlying().(*types.Basic); !ok || bt.Kind() != types.Bool {
+				continue
+			}
+			// a tainted argument
+			gti := &taintInfo{f: g, p: p, vals: map[ssa.Value]string{}, source: map[ssa.Value]ssa.Value{}}
+			for i, a := range call.Call.Args {
+				if _, tainted := ti.vals[a]; tainted && i < len(g.Params) {
+					gti.vals[g.Params[i]] = "parameter " + g.Params[i].Name() + " (caller-owned memory handed down by " + fname(f) + ")"
+					gti.source[g.Params[i]] = g.Params[i]
+				}
+			}
+			if len(gti.vals) == 0 {
+				continue
+			}
+			gti.propagate()
+			pay, bad := gti.sinks(lv)
+			if len(bad) > 0 {
+				return false, bad[0], p.ipos(call)
+			}
+			if len(pay) == 0 {
+				continue
+			}
+			gt := e.funcState(g)
+			// every return: result 0 is the object that received the payload, result 1 is true unless fresh memory replaced it
+			for _, gb := range g.Blocks {
+				ret, ok := gb.Instrs[len(gb.Instrs)-1].(*ssa.Return)
+				if !ok {
+					continue
+				}
+				for _, ps := range pay {
+					if stripAssert(ret.Results[0]) != ps.obj {
+						continue
+					}
+					fk, fv := flagKindOf(ret.Results[1])
+					switch fk {
+					case "true":
+					case "value":
+						ph, isPhi := fv.(*ssa.Phi)
+						if !isPhi {
+							return false, fmt.Sprintf("%s returns the container that holds the caller's memory with a flag that is not provably true", fname(g)), p.ipos(ret)
+						}
+						for i, ev := range ph.Edges {
+							bv, isC := constBool(ev)
+							if isC && bv {
+								continue
+							}
+							if !isC || !gt.freshPayloadStoreDominates(gti, ps, ph.Block().Preds[i]) {
+								return false, fmt.Sprintf("%s can return the container that still holds the caller's memory together with a false flag", fname(g)), p.ipos(ret)
+							}
+						}
+					default:
+						return false, fmt.Sprintf("%s returns the container that holds the caller's memory with flag %q", fname(g), fk), p.ipos(ret)
+					}
+				}
+			}
+			// the caller stores the pair together: some call receives Extract#0 as the container and Extract#1 as its flag
+			var cVal, fVal ssa.Value
+			if call.Referrers() != nil {
+				for _, r := range *call.Referrers() {
+					if ex, ok := r.(*ssa.Extract); ok {
+						if ex.Index == 0 {
+							cVal = ex
+						} else if ex.Index == 1 {
+							fVal = ex
+						}
+					}
+				}
+			}
+			if cVal == nil || fVal == nil {
+				return false, "the flag returned by " + fname(g) + " is dropped by its caller", p.ipos(call)
+			}
+			t := e.funcState(f)
+			paired := false
+			seen := map[ssa.Value]bool{}
+			var walk func(v ssa.Value)
+			walk = func(v ssa.Value) {
+				if seen[v] || v.Referrers() == nil {
+					return
+				}
+				seen[v] = true
+				for _, r := range *v.Referrers() {
+					switch u := r.(type) {
+					case *ssa.MakeInterface:
+						walk(u)
+					case *ssa.Call:
+						callee := u.Call.StaticCallee()
+						if callee == nil {
+							continue
+						}
+						sm := e.sums[e.sumKey(callee, "")]
+						if sm == nil {
+							continue
+						}
+						for _, rq := range sm.reqs {
+							if rq.valParam < len(u.Call.Args) && u.Call.Args[rq.valParam] == v && rq.flag == "param" && rq.flagParm < len(u.Call.Args) && u.Call.Args[rq.flagParm] == fVal {
+								paired = true
+							}
+						}
+					}
+				}
+			}
+			walk(cVal)
+			_ = t
+			if !paired {
+				return false, "the container returned by " + fname(g) + " is not stored into a slot together with the flag returned with it", p.ipos(call)
+			}
+			return true, fmt.Sprintf("%s installs the caller's memory and answers (container, flag) with the flag true unless the payload was replaced by fresh memory; %s stores the pair together", fname(g), fname(f)), p.ipos(call)
+		}
+	}
+	return false, "", ""
 }
